@@ -13,8 +13,8 @@ from ..codec import dec
 ID = "C15"
 RULE = (
     "Hypothesis: DataArrays / Datasets with 1-4 dims from {x,y,z,t} in a drawn order (sizes 1-4), float/int/bool data with "
-    "NaN, attrs on object, variables and grouper; grouper = 1-D coordinate, 2-D coordinate, external named DataArray, or two "
-    "groupers; dim in {None, the grouper dim(s), grouper dim + another dim, a non-grouper dim only, ...}; func in {sum, prod, "
+    "NaN, attrs on object, variables and grouper; grouper = 1-D coordinate, 2-D coordinate, external named DataArray, a 1-D coordinate binned by edges "
+    "(isbin=True vs native groupby_bins), or two groupers; dim in {None, the grouper dim(s), grouper dim + another dim, a non-grouper dim only, ...}; func in {sum, prod, "
     "mean, max, min, count, first, last, var, std, median, any, all}; skipna in {None, True, False}; min_count for sum/prod; "
     "keep_attrs; Datasets mixing variables that have / lack the reduced dims; in-memory, chunked with in-memory grouper, or "
     "dask grouper + expected_groups. Oracle, layered with one signature per layer: native xarray groupby of the in-memory "
@@ -44,13 +44,19 @@ def cases(draw, tier="quick"):
     dt = "|b1" if func in ("any", "all") else draw(st.sampled_from(["<f8", "<f8", "<i8", "<f4"]))
     n = int(np.prod([sizes[d] for d in dims]))
     vals = gen.draw_values(draw, n, dt, func, nan_p=0.3)
-    gkind = draw(st.sampled_from(["coord1d", "coord1d", "coord1d", "external1d", "coord2d", "two"])) if nd >= 2 else draw(st.sampled_from(["coord1d", "external1d"]))
-    gdims = [dims[draw(st.integers(0, nd - 1))]] if gkind in ("coord1d", "external1d") else list(draw(st.permutations(dims))[:2])
+    gkind = draw(st.sampled_from(["coord1d", "coord1d", "coord1d", "external1d", "coord2d", "two", "bins1d"])) if nd >= 2 else draw(st.sampled_from(["coord1d", "external1d", "bins1d"]))
+    gdims = [dims[draw(st.integers(0, nd - 1))]] if gkind in ("coord1d", "external1d", "bins1d") else list(draw(st.permutations(dims))[:2])
     groupers = []
     ng = 2 if gkind == "two" else 1
     for gi in range(ng):
         gd = gdims if gkind != "two" else [gdims[gi]]
         gn = int(np.prod([sizes[d] for d in gd]))
+        if gkind == "bins1d":
+            edges = [0.0, 1.0, 2.5, 4.0][: draw(st.integers(2, 4))]
+            pool = [0.0, 0.5, 1.0, 1.5, 2.5, 3.0, 4.0, 5.0, -1.0, "nan"]
+            v = draw(st.lists(st.sampled_from(pool), min_size=gn, max_size=gn))
+            groupers.append({"dims": gd, "spec": {"dt": "<f8", "sh": [gn], "v": v}, "name": f"lab{gi}", "attrs": draw(st.booleans()), "edges": edges})
+            continue
         lab = gen.draw_labels(draw, gn, kinds=["int", "float", "str"], max_groups=3, missing=draw(st.booleans()))
         groupers.append({"dims": gd, "spec": {"dt": lab["spec"]["dt"], "sh": [sizes[d] for d in gd], "v": lab["spec"]["v"]},
                          "name": f"lab{gi}", "attrs": draw(st.booleans())})  # fmt: skip
@@ -117,7 +123,7 @@ def build(case):
         obj = xr.Dataset({"v": da, "w": w}, attrs={"title": "ds"})
     by = []
     for lab in gobjs:
-        if case["gkind"] in ("coord1d", "coord2d", "two"):
+        if case["gkind"] in ("coord1d", "coord2d", "two", "bins1d"):
             obj = obj.assign_coords({lab.name: lab})
             by.append(lab.name)
         else:
@@ -154,7 +160,10 @@ def native(obj, by, case):
     if func not in ("first", "last"):
         kw["keep_attrs"] = case["keep_attrs"]
     with xr.set_options(use_flox=False, use_numbagg=False, use_bottleneck=False):
-        gb = obj.groupby(by[0])
+        if case["gkind"] == "bins1d":
+            gb = obj.groupby_bins(by[0], bins=case["groupers"][0]["edges"])
+        else:
+            gb = obj.groupby(by[0])
         if func in ("first", "last"):
             kw.pop("dim", None)
             return getattr(gb, func)(**({"skipna": case["skipna"]} if case["skipna"] is not None else {}), keep_attrs=case["keep_attrs"])
@@ -174,6 +183,9 @@ def flox_call(obj, by, gobjs, case):
         kw["min_count"] = case["min_count"]
     if case.get("engine"):
         kw["engine"] = case["engine"]
+    if case["gkind"] == "bins1d":
+        kw["expected_groups"] = np.array(case["groupers"][0]["edges"])
+        kw["isbin"] = True
     o = obj
     byc = list(by)
     if case["chunk"]:
@@ -195,7 +207,8 @@ def flox_call(obj, by, gobjs, case):
                 else:
                     newby.append(labc)
             byc = newby
-            kw["expected_groups"] = tuple(exp) if len(exp) > 1 else exp[0]
+            if case["gkind"] != "bins1d":
+                kw["expected_groups"] = tuple(exp) if len(exp) > 1 else exp[0]
         else:
             # groupers stay in memory
             for b in by:
@@ -258,10 +271,30 @@ def execute(case) -> Outcome:
                     out.add(("pass-through", path), f"func={func}: variable {name!r} lacks the reduced dims {rdims} but was changed: input dims {v.dims} values "
                             f"{v.values.tolist()} -> dims {g.dims} values {g.values.tolist()} case={brief(case)}")  # fmt: skip
 
+    if nat is not None and case["gkind"] == "bins1d":
+        # native may drop empty bins; flox keeps every requested bin (filled): compare on native's bins
+        bname = case["groupers"][0]["name"] + "_bins"
+        try:
+            if bname not in got.dims or bname not in nat.dims:
+                raise KeyError(bname)
+            # empty bins are "absent requested labels": their default value is unspecified (C05) - compare occupied bins
+            import pandas as pd
+
+            g0 = case["groupers"][0]
+            ii = pd.IntervalIndex.from_breaks(g0["edges"])
+            codes = pd.cut(dec(g0["spec"]).reshape(-1), ii).codes
+            occupied = [ii[i] for i in sorted(set(int(c) for c in codes if c >= 0))]
+            nat = nat.sel({bname: occupied})
+            got = got.sel({bname: occupied})
+            gvars = dict(got.data_vars) if isinstance(got, xr.Dataset) else {"v": got}
+        except Exception as e:  # noqa: BLE001
+            out.add(("bins-coordinate", "dataset" if case["dataset"] else "dataarray"), f"binned result cannot be aligned with native bins: {type(e).__name__}: {str(e)[:150]}; "
+                    f"flox dims {got.dims} coords {list(got.coords)}; native dims {nat.dims} case={brief(case)}")  # fmt: skip
+            return out
     if nat is not None:
         nvars = dict(nat.data_vars) if isinstance(nat, xr.Dataset) else {"v": nat}
         compare_native(out, case, obj, gvars, nvars, got, nat, rdims)
-    else:
+    elif case["gkind"] != "bins1d":
         compare_core(out, case, obj, by, gobjs, gvars, rdims)
     return out
 
@@ -278,7 +311,7 @@ def compare_native(out, case, obj, gvars, nvars, got, nat, rdims):
     func = case["func"]
     gd = case["groupers"][0]["dims"]
     path = "plain-reduction-shortcut" if all(d not in gd for d in rdims) else "grouped"
-    kindtag = ("dataset" if case["dataset"] else "dataarray", f"gndim={len(gd)}", path)
+    kindtag = ("dataset" if case["dataset"] else "dataarray", f"gndim={len(gd)}" + ("-binned" if case["gkind"] == "bins1d" else ""), path)
     if set(gvars) != set(nvars):
         out.add(("variables", *kindtag), f"variables {sorted(gvars)} != native {sorted(nvars)} case={brief(case)}")
         return
